@@ -151,6 +151,8 @@ def derivative_contract(env, factory, const=None, exempt=(), history=True, equal
         o2 = hA.compute(ins, outs=store)
         return o, j, first, o2
 
+    import time as _time
+    t_hist0 = _time.time()
     for path, (outsA, jacA, jacA_first, outsA2) in env.explore(run_live):
         # compare with a fresh instance on the same path
         outsC, jacC = _fresh_on_path()
@@ -163,15 +165,18 @@ def derivative_contract(env, factory, const=None, exempt=(), history=True, equal
                    jacA_first[k], jacC.dense(k))
             env.eq("C01,C02,C03", "H-jac d%s/d%s when linearised twice at the same point%s" % (k[0], k[1], tag),
                    jacA.dense(k), jacC.dense(k))
+    t_hist = _time.time() - t_hist0
     # ---- history: the previous point differs from X in exactly one input (anything remembered under a key that
     # leaves that input out is stale at X)
     free = [k for k in hB.in_names if not (const and k in const)]
     # cost guard (quick tier): the revisits cost about two evaluations per input; components whose single symbolic
     # evaluation is already slow get them in the thorough tier only (stated in the evidence notes)
     import os as _os
-    est = 2.0 * len(free) * t_eval
-    if len(free) > 1 and est > 60.0 and _os.environ.get("OASVERIF_TIER", "quick") != "thorough":
-        env.note("%s: one-input-changed histories skipped in the quick tier (estimated %.0f s); run in the thorough tier" % (hB.fq, est))
+    thorough = _os.environ.get("OASVERIF_TIER", "quick") == "thorough"
+    est = max(2.0 * len(free) * t_eval, len(free) * t_hist)      # each revisit costs about as much as the history block above
+    if len(free) > 1 and est > (1500.0 if thorough else 60.0):
+        env.note("%s: one-input-changed histories skipped (estimated %.0f s, budget %s s)%s" % (
+            hB.fq, est, 1500 if thorough else 60, "" if thorough else "; run in the thorough tier"))
         free = []
     if len(free) > 1:
         for kin in free:
